@@ -14,7 +14,9 @@ import (
 	"log"
 	"os"
 	"path/filepath"
+	"runtime"
 	"runtime/debug"
+	"runtime/pprof"
 	"sort"
 	"strconv"
 	"strings"
@@ -111,6 +113,18 @@ func Main(levels map[string]string) *Ctx {
 		}
 	}
 	c.Deadline = c.start.Add(budget)
+	if pf := os.Getenv("VERIF_PPROF"); pf != "" {
+		f, _ := os.Create(pf)
+		pprof.StartCPUProfile(f)
+		runtime.SetBlockProfileRate(10000)
+		stopProf = func() {
+			pprof.StopCPUProfile()
+			f.Close()
+			bf, _ := os.Create(pf + ".block")
+			pprof.Lookup("block").WriteTo(bf, 0)
+			bf.Close()
+		}
+	}
 	if *replay != "" {
 		b, err := os.ReadFile(*replay)
 		if err != nil {
@@ -128,6 +142,8 @@ func Main(levels map[string]string) *Ctx {
 	}
 	return c
 }
+
+var stopProf = func() {}
 
 // Thorough reports whether the thorough tier was requested.
 func (c *Ctx) Thorough() bool { return c.Tier == "thorough" }
@@ -334,6 +350,7 @@ func loadKnown() []known {
 
 // Finish writes the evidence file, prints VIOLATION / KNOWN-FINDING lines and returns the exit code.
 func (c *Ctx) Finish() int {
+	stopProf()
 	c.mu.Lock()
 	defer c.mu.Unlock()
 	if c.ReplayCase != nil {
